@@ -368,6 +368,14 @@ pub fn execute(sb: &Sandbox, base: &Files, op: &OpSpec, plan: &FaultPlan) -> Obs
         }
         written = Some(w);
     }
+    // `run` writes nothing into the store; what it promises is the program it emits
+    if matches!(res.exit, Exit::Ok) {
+        if let Some(CliOut::Compiled(c)) = &res.value {
+            let mut w = BTreeMap::new();
+            w.insert("<emitted Go>".to_string(), sha(c.go_text.as_bytes()));
+            written = Some(w);
+        }
+    }
     Observed { exit: res.exit, counts, syscalls: res.syscalls, fired: res.fired, problems, written, opened }
 }
 
